@@ -1639,11 +1639,20 @@ namespace gch
             &&  std::is_integral<to>::value;
       };
 
+      // Note: A conversion from a pointer to derived to a pointer to base may adjust the
+      //       address, so only conversions which preserve the pointee type up to cv-qualifiers
+      //       or which convert to a pointer to (cv) void can be done with memcpy.
       template <typename From, typename To>
       struct is_convertible_pointer
         : bool_constant<std::is_pointer<From>::value
                     &&  std::is_pointer<To>::value
-                    &&  std::is_convertible<From, To>::value>
+                    &&  std::is_convertible<From, To>::value
+                    &&  (  std::is_same<
+                             typename std::remove_cv<
+                               typename std::remove_pointer<From>::type>::type,
+                             typename std::remove_cv<
+                               typename std::remove_pointer<To>::type>::type>::value
+                       ||  std::is_void<typename std::remove_pointer<To>::type>::value)>
       { };
 
       // Memcpyable assignment.
